@@ -43,15 +43,37 @@ inductive Entry
   | own
 deriving DecidableEq, Repr
 
-/-- the five chains of one `ProtocolWrapper` -/
-abbrev Chains := Kind → List Entry
+/-- the five chains of one `ProtocolWrapper` (`_handle_initialize_chain`, ..., `_finish_queue_chain`) -/
+structure Chains where
+  initC : List Entry
+  timerC : List Entry
+  telemetryC : List Entry
+  packetC : List Entry
+  finishC : List Entry
+deriving Repr
 
 namespace Chains
 
-/-- `ProtocolWrapper.__init__`: every chain holds just the protocol's own method -/
-def fresh : Chains := fun _ => [.own]
+/-- the chain of kind `k`; `c k` is notation for `c.get k` -/
+def get (c : Chains) : Kind → List Entry
+  | .initialize => c.initC
+  | .timer => c.timerC
+  | .telemetry => c.telemetryC
+  | .packet => c.packetC
+  | .finish => c.finishC
 
-def set (c : Chains) (k : Kind) (l : List Entry) : Chains := fun k' => if k' = k then l else c k'
+instance : CoeFun Chains (fun _ => Kind → List Entry) := ⟨Chains.get⟩
+
+/-- `ProtocolWrapper.__init__`: every chain holds just the protocol's own method -/
+def fresh : Chains := ⟨[.own], [.own], [.own], [.own], [.own]⟩
+
+def set (c : Chains) (k : Kind) (l : List Entry) : Chains :=
+  match k with
+  | .initialize => { c with initC := l }
+  | .timer => { c with timerC := l }
+  | .telemetry => { c with telemetryC := l }
+  | .packet => { c with packetC := l }
+  | .finish => { c with finishC := l }
 
 /-- `register_<kind>(handler)`: `chain.insert(0, handler)` -/
 def register (c : Chains) (k : Kind) (h : Nat) : Chains := c.set k (.h h :: c k)
@@ -167,7 +189,13 @@ namespace DState
 
 def init : DState := { reg := Registry.empty, calls := fun _ => 0, regLog := [] }
 
-def create (s : DState) (p : Nat) : DState := { s with reg := s.reg.create p }
+/-- `create_dispatcher(protocol)`; the registry component is `Registry.create` (lemma
+    `DState.create_reg`).  Written with the lookup outside the registry function so that the compiled
+    driver evaluates it once (a function-valued `Registry.create` would redo it on every lookup). -/
+def create (s : DState) (p : Nat) : DState :=
+  match s.reg p with
+  | some _ => s
+  | none => { s with reg := s.reg.upd p Chains.fresh }
 
 def register (s : DState) (p : Nat) (k : Kind) (h : Nat) : DState × Res :=
   let r := s.reg.register p k h
